@@ -95,6 +95,43 @@ pub fn check_views(c: &ViewCase) -> CheckResult {
     if dt.get_data_mut() != &expect[..] {
         return Err("get_data_mut disagrees with get_data after byte writes".into());
     }
+    // the same while a layer group is open (empty or drawn into, under a narrower clip or not): the views are
+    // the surface's own words, not the open layer's
+    if n > 0 && c.argb[2] % 2 == 0 {
+        let mut d = DrawTarget::from_vec(c.w, c.h, c.words.clone());
+        let kind = c.argb[3] % 3;
+        if kind == 1 {
+            d.push_clip_rect(irect(1, 0, c.w, c.h));
+        }
+        d.push_layer(if kind == 0 { 1.0 } else { 0.5 });
+        if kind == 2 {
+            d.fill_rect(0.0, 0.0, c.w as f32, c.h as f32, &Source::Solid(SolidSource { r: 0x40, g: 0x20, b: 0x10, a: 0x80 }), &DrawOptions::new());
+        }
+        let bv = d.get_data_u8();
+        if bv.len() != 4 * n {
+            return Err(format!("with a layer open get_data_u8().len() = {} expected {}", bv.len(), 4 * n));
+        }
+        for i in 0..n {
+            let wv = c.words[i];
+            if bv[4 * i..4 * i + 4] != [wv as u8, (wv >> 8) as u8, (wv >> 16) as u8, (wv >> 24) as u8] {
+                return Err(format!("with a layer open pixel {} word {} is exposed as bytes {:?}", i, hex(wv), &bv[4 * i..4 * i + 4]));
+            }
+        }
+        {
+            let bm = d.get_data_u8_mut();
+            if bm.len() != 4 * n {
+                return Err(format!("with a layer open get_data_u8_mut().len() = {} expected {}", bm.len(), 4 * n));
+            }
+            bm.copy_from_slice(&c.bytes);
+        }
+        if d.get_data() != &expect[..] {
+            return Err("with a layer open, bytes written through get_data_u8_mut are not read back through get_data".into());
+        }
+        if d.into_vec() != expect {
+            return Err("with a layer open, bytes written through get_data_u8_mut are not read back through into_vec".into());
+        }
+        o.class("views-taken-while-a-layer-is-open");
+    }
     // writes through the word view are visible through the byte view
     if n > 0 {
         let k = (c.argb[0] as usize) % n;
@@ -312,10 +349,10 @@ fn png_big_strategy() -> BoxedStrategy<PngCase> {
 pub fn property(_ctx: &Ctx) -> Property {
     Property {
         id: "C19",
-        rule: "part views: sizes 0..9 x 0..9 (rarely 257..300 long or tall, also for part png) with arbitrary pixel words, arbitrary bytes written through get_data_u8_mut, arbitrary a,r,g,b for to_u32; oracle = word/byte layout model (A<<24|R<<16|G<<8|B; bytes B,G,R,A), cross-view visibility and from_vec/from_backing/into_vec/into_inner round trips (owned and borrowed backings; from_vec also with shorter vectors, with and without spare capacity, and longer ones: pixels that fit are kept, missing ones are zero). part png-large: 130..190 px square surfaces (more than 16384 pixels) and 257..300 x 257..290 ones (more than 65536) that are zero except for a few rows (premultiplied words and alpha-0 words with colour bytes), same oracle. part png: premultiplied words (alpha-0 pixels with arbitrary colour bytes) written by write_png (in two thirds of the cases while a layer group is open, empty or drawn into, or a clip and a transform are in force: the image is the surface's pixel words regardless) and decoded with the png crate, then written again from the same words held in a borrowed slice starting at an even and at an odd word of a larger buffer (identical file); oracle = un-premultiply model floor(c*255/a), alpha unchanged, row-major RGBA8. Non-trivial: >=2 distinct pixels, w != h and pairwise different channel bytes (so a channel swap or transposition is visible); distinct by hash of the case.",
+        rule: "part views: sizes 0..9 x 0..9 (rarely 257..300 long or tall, also for part png) with arbitrary pixel words, arbitrary bytes written through get_data_u8_mut, arbitrary a,r,g,b for to_u32; oracle = word/byte layout model (A<<24|R<<16|G<<8|B; bytes B,G,R,A), cross-view visibility (in half of the cases checked again while a layer group is open, empty, under a narrower clip, or drawn into: the views are the surface's words, not the layer's) and from_vec/from_backing/into_vec/into_inner round trips (owned and borrowed backings; from_vec also with shorter vectors, with and without spare capacity, and longer ones: pixels that fit are kept, missing ones are zero). part png-large: 130..190 px square surfaces (more than 16384 pixels) and 257..300 x 257..290 ones (more than 65536) that are zero except for a few rows (premultiplied words and alpha-0 words with colour bytes), same oracle. part png: premultiplied words (alpha-0 pixels with arbitrary colour bytes) written by write_png (in two thirds of the cases while a layer group is open, empty or drawn into, or a clip and a transform are in force: the image is the surface's pixel words regardless) and decoded with the png crate, then written again from the same words held in a borrowed slice starting at an even and at an odd word of a larger buffer (identical file); oracle = un-premultiply model floor(c*255/a), alpha unchanged, row-major RGBA8. Non-trivial: >=2 distinct pixels, w != h and pairwise different channel bytes (so a channel swap or transposition is visible); distinct by hash of the case.",
         assumptions: vec!["little-endian target", "the png crate's decoder is trusted"],
         parts: vec![part_outside_c07("views", 60_000, 600_000, view_strategy, check_views), part("png", 20_000, 200_000, png_strategy, check_png), part("png-large", 150, 3_000, png_big_strategy, check_png)],
-        min_class_fraction: vec![("views", "from_vec:short-nonzero", 0.5), ("png", "translucent", 0.5), ("png", "transparent-with-colour", 0.1), ("png-large", "more-than-65536-pixels-with-transparent-colour", 0.2)],
+        min_class_fraction: vec![("views", "from_vec:short-nonzero", 0.5), ("views", "views-taken-while-a-layer-is-open", 0.3), ("png", "translucent", 0.5), ("png", "transparent-with-colour", 0.1), ("png-large", "more-than-65536-pixels-with-transparent-colour", 0.2)],
         panic_is_violation: false,
     }
 }
